@@ -8,8 +8,8 @@ Open Scope N_scope.
 (** ** well-formed groups / record lists *)
 Inductive wf_group : list rec -> list event -> Prop :=
 | WG_single e : e_flag e = true -> wf_group [REvent e] [e]
-| WG_multi es tx : es <> [] -> Forall (fun e => e_flag e = false /\ e_tx e = tx) es ->
-    wf_group (map REvent es ++ [RCommit tx (N.of_nat (length es))]) es.
+| WG_multi es tx c : es <> [] -> Forall (fun e => e_flag e = false /\ e_tx e = tx) es ->
+    wf_group (map REvent es ++ [RCommit tx c]) es.   (* the count is not checked by any reader *)
 
 Inductive wf_recs : list rec -> list (list event) -> Prop :=
 | WR_nil : wf_recs [] []
@@ -19,20 +19,28 @@ Inductive wf_recs : list rec -> list (list event) -> Prop :=
 Fixpoint loc (b : nat) (es : list event) : list (nat * event) :=
   match es with [] => [] | e :: r => (b, e) :: loc (S b) r end.
 
-Definition gkind (es : list event) : option (N * N) :=
-  match es with
-  | e :: _ => if e_flag e then None else Some (e_tx e, N.of_nat (length es))
-  | [] => None
+(* a group is a flagged single event, or unflagged events closed by a commit record *)
+Definition gflag (es : list event) : bool := match es with e :: _ => e_flag e | [] => true end.
+Definition gtx (es : list event) : N := match es with e :: _ => e_tx e | [] => 0 end.
+Definition gsize (es : list event) : nat := if gflag es then length es else S (length es).
+
+(* the counts of the commit records, in order *)
+Fixpoint commit_counts (recs : list rec) : list N :=
+  match recs with
+  | [] => []
+  | REvent _ :: r => commit_counts r
+  | RCommit _ c :: r => c :: commit_counts r
   end.
-Definition gsize (es : list event) : nat :=
-  match gkind es with None => length es | Some _ => S (length es) end.
 
 Definition lgrp := (list (nat * event) * option (N * N))%type.
 
-Fixpoint layout_of (b : nat) (gs : list (list event)) : list lgrp :=
+(* the layout of a segment: its groups with the offsets of their events; [cs] = commit counts *)
+Fixpoint layout_of (b : nat) (gs : list (list event)) (cs : list N) : list lgrp :=
   match gs with
   | [] => []
-  | es :: r => (loc b es, gkind es) :: layout_of (b + gsize es) r
+  | es :: r =>
+      if gflag es then (loc b es, None) :: layout_of (b + gsize es) r cs
+      else (loc b es, Some (gtx es, hd 0 cs)) :: layout_of (b + gsize es) r (tl cs)
   end.
 
 (* what reading at the offset of a located event returns: [rest] = the later events of its group *)
@@ -68,13 +76,33 @@ Proof.
   destruct H as [H|H]; [inversion H; lia|]. apply IH in H. lia.
 Qed.
 
+Lemma commit_counts_app a b : commit_counts (a ++ b) = commit_counts a ++ commit_counts b.
+Proof. induction a as [|x a IH]; [reflexivity|]. destruct x; cbn; rewrite IH; reflexivity. Qed.
+
+Lemma commit_counts_events es : commit_counts (map REvent es) = [].
+Proof. induction es; cbn; auto. Qed.
+
 Lemma wf_group_size g es : wf_group g es -> length g = gsize es /\ es <> [].
 Proof.
-  intros [e He|es' tx Hne Hall].
-  - unfold gsize, gkind. rewrite He. split; [reflexivity|discriminate].
-  - split; [|assumption]. rewrite app_length, map_length. unfold gsize, gkind.
+  intros [e He|es' tx c Hne Hall].
+  - unfold gsize, gflag. rewrite He. split; [reflexivity|discriminate].
+  - split; [|assumption]. rewrite app_length, map_length. unfold gsize, gflag.
     destruct es' as [|e r]; [congruence|]. inversion Hall as [|? ? [Hf _] _]; subst.
     rewrite Hf. cbn. lia.
+Qed.
+
+(* the first layout entry of a well-formed group followed by anything *)
+Lemma layout_of_cons g es b gs r : wf_group g es ->
+  layout_of b (es :: gs) (commit_counts (g ++ r))
+  = (loc b es, match g with [REvent _] => None | _ => Some (gtx es, hd 0 (commit_counts g)) end)
+    :: layout_of (b + length g) gs (commit_counts r).
+Proof.
+  intros Hg. destruct (wf_group_size _ _ Hg) as [Hlen _]. rewrite commit_counts_app. cbn [layout_of].
+  rewrite <- Hlen. destruct Hg as [e He|es' tx c Hne Hall].
+  - unfold gflag. rewrite He. reflexivity.
+  - destruct es' as [|e r']; [congruence|]. inversion Hall as [|? ? [Hf _] _]; subst.
+    unfold gflag. rewrite Hf. rewrite commit_counts_app, commit_counts_events. cbn [app commit_counts hd tl].
+    destruct r'; reflexivity.
 Qed.
 
 (** ** read_committed *)
@@ -95,13 +123,13 @@ Lemma skipn_app_exact {A} (l1 l2 : list A) n : length l1 = n -> skipn n (l1 ++ l
 Proof. intros <-. rewrite skipn_app, skipn_all, Nat.sub_diag. reflexivity. Qed.
 
 Lemma wf_read : forall recs gs, wf_recs recs gs -> forall extra b pre, length pre = b ->
-  forall g, In g (layout_of b gs) -> forall j o e rest, skipn j (fst g) = (o, e) :: rest ->
+  forall g, In g (layout_of b gs (commit_counts recs)) -> forall j o e rest, skipn j (fst g) = (o, e) :: rest ->
   fst (read_committed (pre ++ recs ++ extra) o) = Some (commit_of (snd g) o e rest).
 Proof.
   induction 1 as [|g0 es r gs Hg Hr IH]; intros extra b pre Hpre g Hin j o e rest Hsk.
   - contradiction.
   - destruct (wf_group_size _ _ Hg) as [Hlen Hne].
-    cbn [layout_of] in Hin. destruct Hin as [<-|Hin].
+    rewrite (layout_of_cons _ _ b gs r Hg) in Hin. destruct Hin as [<-|Hin].
     + cbn [fst snd] in *. rewrite loc_skipn in Hsk.
       assert (Hj : (j < length es)%nat).
       { destruct (Nat.lt_ge_cases j (length es)); auto.
@@ -109,10 +137,10 @@ Proof.
       destruct (skipn j es) as [|e' es'] eqn:Hes; [discriminate|].
       cbn in Hsk. inversion Hsk; subst o e' rest. clear Hsk.
       unfold read_committed.
-      destruct Hg as [e0 He0|es0 tx Hne0 Hall].
+      destruct Hg as [e0 He0|es0 tx c Hne0 Hall].
       * destruct j; [|cbn in Hj; lia]. cbn in Hes. inversion Hes; subst.
         rewrite Nat.add_0_r. rewrite skipn_app_exact by reflexivity.
-        cbn [app rc_loop]. rewrite He0. unfold gkind. rewrite He0. reflexivity.
+        cbn [app rc_loop]. rewrite He0. reflexivity.
       * assert (Hsplit : es0 = firstn j es0 ++ e :: es') by (rewrite <- Hes; symmetry; apply firstn_skipn).
         assert (Hfl : length (firstn j es0) = j) by (rewrite firstn_length; lia).
         rewrite Hsplit at 1. rewrite map_app. rewrite <- !app_assoc.
@@ -122,12 +150,16 @@ Proof.
         inversion Hall' as [|? ? [Hf Ht] Hall'']; subst.
         cbn [map app rc_loop]. rewrite Hf.
         cbn [app]. rewrite rc_loop_multi by (auto; discriminate).
-        unfold gkind. destruct es0 as [|x es0]; [congruence|].
-        inversion Hall as [|? ? [Hfx Htx] _]; subst. rewrite Hfx.
-        cbn [commit_of app]. rewrite Htx. reflexivity.
+        destruct es0 as [|x es0]; [congruence|].
+        inversion Hall as [|? ? [Hfx Htx] _]; subst.
+        rewrite commit_counts_app, commit_counts_events. cbn [app commit_counts hd gtx].
+        assert (Hk : match map REvent (x :: es0) ++ [RCommit (e_tx e) c] with
+                     | [REvent _] => None | _ => Some (e_tx x, c) end = Some (e_tx x, c)).
+        { cbn. destruct es0; reflexivity. }
+        rewrite Hk. cbn [commit_of app]. rewrite Htx. reflexivity.
     + replace (pre ++ (g0 ++ r) ++ extra) with ((pre ++ g0) ++ r ++ extra)
         by (rewrite <- !app_assoc; reflexivity).
-      eapply (IH extra (b + gsize es)%nat); [rewrite app_length; lia|exact Hin|exact Hsk].
+      eapply (IH extra (b + length g0)%nat); [rewrite app_length; lia|exact Hin|exact Hsk].
 Qed.
 
 (** ** hydrate_from *)
@@ -146,17 +178,16 @@ Proof. revert b; induction es as [|e es IH]; intros b; cbn; [reflexivity|]. rewr
 
 Lemma wf_group_hydrate g es b : wf_group g es -> hydrate_from g b = map entry_of (loc b es).
 Proof.
-  intros [e He|es' tx Hne Hall]; [reflexivity|].
+  intros [e He|es' tx c Hne Hall]; [reflexivity|].
   rewrite hydrate_app, hydrate_events. cbn. apply app_nil_r.
 Qed.
 
 Lemma wf_hydrate recs gs : wf_recs recs gs -> forall b,
-  hydrate_from recs b = map entry_of (lay_events (layout_of b gs)).
+  hydrate_from recs b = map entry_of (lay_events (layout_of b gs (commit_counts recs))).
 Proof.
   induction 1 as [|g es r gs Hg Hr IH]; intros b; [reflexivity|].
-  rewrite hydrate_app. unfold lay_events. cbn [layout_of map concat fst].
-  rewrite map_app. rewrite (wf_group_hydrate _ _ b Hg). f_equal.
-  destruct (wf_group_size _ _ Hg) as [-> _]. apply IH.
+  rewrite hydrate_app. rewrite (layout_of_cons _ _ b gs r Hg). unfold lay_events. cbn [map concat fst].
+  rewrite map_app. rewrite (wf_group_hydrate _ _ b Hg). f_equal. apply IH.
 Qed.
 
 (** ** groups *)
@@ -177,7 +208,7 @@ Lemma wf_groups_app recs gs : wf_recs recs gs -> forall extra,
   groups_loop (recs ++ extra) [] None = gs ++ groups_loop extra [] None.
 Proof.
   induction 1 as [|g es r gs Hg Hr IH]; intros extra; [reflexivity|].
-  destruct Hg as [e He|es tx Hne Hall].
+  destruct Hg as [e He|es tx c Hne Hall].
   - cbn. rewrite He. f_equal. apply IH.
   - destruct es as [|e es]; [congruence|].
     inversion Hall as [|? ? [Hf Ht] Hall']; subst.
@@ -190,16 +221,16 @@ Proof.
   intros H. unfold groups. rewrite <- (app_nil_r recs). rewrite (wf_groups_app _ _ H). cbn. apply app_nil_r.
 Qed.
 
-Lemma lay_events_snd b gs : map snd (lay_events (layout_of b gs)) = concat gs.
+Lemma lay_events_snd : forall gs b cs, map snd (lay_events (layout_of b gs cs)) = concat gs.
 Proof.
-  revert b; induction gs as [|es gs IH]; intros b; [reflexivity|].
-  unfold lay_events in *. cbn. rewrite map_app, loc_snd, IH. reflexivity.
+  induction gs as [|es gs IH]; intros b cs; [reflexivity|].
+  unfold lay_events in *. cbn [layout_of]. destruct (gflag es); cbn; rewrite map_app, loc_snd, IH; reflexivity.
 Qed.
 
-Lemma layout_groups b gs : map (fun g : lgrp => map snd (fst g)) (layout_of b gs) = gs.
+Lemma layout_groups : forall gs b cs, map (fun g : lgrp => map snd (fst g)) (layout_of b gs cs) = gs.
 Proof.
-  revert b; induction gs as [|es gs IH]; intros b; [reflexivity|].
-  cbn. rewrite loc_snd, IH. reflexivity.
+  induction gs as [|es gs IH]; intros b cs; [reflexivity|].
+  cbn [layout_of]. destruct (gflag es); cbn; rewrite loc_snd, IH; reflexivity.
 Qed.
 
 (** ** offsets are strictly increasing *)
@@ -244,43 +275,39 @@ Lemma loc_incr b es : incr b (map fst (loc b es)).
 Proof. revert b; induction es as [|e es IH]; intros b; cbn; [exact I|]. split; [lia|apply IH]. Qed.
 
 Lemma gsize_ge es : (length es <= gsize es)%nat.
-Proof. unfold gsize. destruct (gkind es); lia. Qed.
+Proof. unfold gsize. destruct (gflag es); lia. Qed.
 
-Lemma layout_incr b gs : incr b (map fst (lay_events (layout_of b gs))).
+Lemma layout_incr : forall gs b cs, incr b (map fst (lay_events (layout_of b gs cs))).
 Proof.
-  revert b; induction gs as [|es gs IH]; intros b; [exact I|].
-  unfold lay_events in *. cbn [layout_of map concat fst]. rewrite map_app.
-  apply incr_app_bound with (B := (b + gsize es)%nat).
-  - apply loc_incr.
-  - intros x Hx. apply in_map_iff in Hx. destruct Hx as [[o e] [<- Hin]]. apply loc_fst_bounds in Hin.
-    pose proof (gsize_ge es). cbn. lia.
-  - lia.
-  - apply IH.
+  induction gs as [|es gs IH]; intros b cs; [exact I|].
+  assert (H : forall cs', incr b (map fst (loc b es ++ lay_events (layout_of (b + gsize es) gs cs')))).
+  { intros cs'. rewrite map_app. apply incr_app_bound with (B := (b + gsize es)%nat).
+    - apply loc_incr.
+    - intros x Hx. apply in_map_iff in Hx. destruct Hx as [[o e] [<- Hin]]. apply loc_fst_bounds in Hin.
+      pose proof (gsize_ge es). cbn. lia.
+    - lia.
+    - apply IH. }
+  unfold lay_events in *. cbn [layout_of]. destruct (gflag es); cbn [map concat fst]; apply H.
 Qed.
 
-Lemma layout_bound b gs recs : wf_recs recs gs ->
-  forall x, In x (map fst (lay_events (layout_of b gs))) -> (x < b + length recs)%nat.
-Proof.
-  intros H; revert b; induction H as [|g es r gs Hg Hr IH]; intros b x Hx; [contradiction|].
-  destruct (wf_group_size _ _ Hg) as [Hlen _].
-  unfold lay_events in *. cbn [layout_of map concat fst] in Hx. rewrite map_app in Hx.
-  rewrite app_length. apply in_app_or in Hx. destruct Hx as [Hx|Hx].
-  - apply in_map_iff in Hx. destruct Hx as [[o e] [<- Hin]]. apply loc_fst_bounds in Hin.
-    pose proof (gsize_ge es). cbn. lia.
-  - apply IH in Hx. lia.
-Qed.
-
-Lemma wf_kind_single recs gs : wf_recs recs gs -> forall b g, In g (layout_of b gs) ->
+Lemma wf_kind_single recs gs : wf_recs recs gs -> forall b g, In g (layout_of b gs (commit_counts recs)) ->
   fst g <> [] /\ (snd g = None -> (length (fst g) <= 1)%nat).
 Proof.
   induction 1 as [|g0 es r gs Hg Hr IH]; intros b g Hin; [contradiction|].
-  cbn in Hin. destruct Hin as [<-|Hin]; [|eapply IH; eauto].
-  cbn. destruct Hg as [e He|es tx Hne Hall].
+  rewrite (layout_of_cons _ _ b gs r Hg) in Hin. destruct Hin as [<-|Hin]; [|eapply IH; eauto].
+  cbn [fst snd]. destruct Hg as [e He|es tx c Hne Hall].
   - split; [discriminate|]. cbn. lia.
   - split.
     + destruct es; [congruence|discriminate].
-    + unfold gkind. destruct es as [|x es]; [congruence|].
-      inversion Hall as [|? ? [Hf _] _]; subst. rewrite Hf. discriminate.
+    + destruct es as [|x es]; [congruence|]. cbn. destruct es; discriminate.
+Qed.
+
+Lemma in_layout_of : forall gs b cs g, In g (layout_of b gs cs) -> exists b' es, In es gs /\ fst g = loc b' es.
+Proof.
+  induction gs as [|es gs IH]; intros b cs g H; [contradiction|]. cbn [layout_of] in H.
+  destruct (gflag es); (destruct H as [<-|H];
+    [exists b, es; split; [left|]; reflexivity
+    |destruct (IH _ _ _ H) as (b' & es' & H1 & H2); exists b', es'; split; [right|]; assumption]).
 Qed.
 
 Lemma wf_recs_app r1 g1 r2 g2 : wf_recs r1 g1 -> wf_recs r2 g2 -> wf_recs (r1 ++ r2) (g1 ++ g2).
